@@ -78,6 +78,7 @@ int g_wake_kind[kMaxThreads];      // 0 woken by FUTEX_WAKE, 1 spurious (EINTR),
 int64_t g_deadline[kMaxThreads];
 bool g_timed[kMaxThreads];
 int64_t g_last_ts[kMaxThreads];
+uint32_t g_timed_n[kMaxThreads];
 bool futex_exact() {
   static int v = -1;
   if (v < 0) { const char* e = getenv("VF_FUTEX_TIMEOUT_EXACT"); v = (e && *e && *e != '0') ? 1 : 0; }
@@ -105,6 +106,8 @@ int pick_next(int me, bool me_can_run) {
         g_woken[tt] = true;
         g_wake_kind[tt] = t >= 64 ? 2 : 1;
         if (t >= 64 && g_timed[tt] && g_clock_ns < g_deadline[tt]) g_clock_ns = g_deadline[tt];
+        g_pos++;
+        return tt;  // the resumed waiter runs next (its return from the wait is not a visible operation)
       }
       g_pos++;
       continue;
@@ -215,6 +218,7 @@ long __wrap_syscall(long nr, long a1, long a2, long a3, long a4, long a5, long a
     g_timed[me] = false;
     if (a4 && futex_exact()) {
       const int64_t* ts = (const int64_t*)a4;
+      g_timed_n[me]++;
       if (ts[0] < 0 || ts[1] < 0 || ts[1] >= 1000000000) {
         g_last_ts[me] = -1;
         pthread_mutex_unlock(&g_mu);
@@ -382,6 +386,7 @@ void vf_clock_advance(uint64_t d) {
   g_clock_ns += (int64_t)d;
 }
 int64_t vf_futex_last_timeout_ns() { return g_last_ts[t_id]; }
+uint32_t vf_futex_timed_wait_count() { return g_timed_n[t_id]; }
 void vf_observe(uint64_t v) { digest(v); }
 void vf_reach(const char*) {}
 void vf_sched_point() { if (getenv("VF_SCHED_POINTS")) vf_yield(-3); }
